@@ -155,9 +155,37 @@ class FiberSum(symexec.Summariser):
         return res
 
 
+def param_types_ok(f, T):
+    """value parameters have exactly the element type T (T& for the expected value of a CAS; std::ptrdiff_t for the
+    arithmetic operand of a pointer atomic): any other type converts the operand on the way in"""
+    ptr = T.endswith('*')
+    bad = []
+    for k, pid in enumerate(p for p in f.params if f.locals[p]['t'] != ORDER_T):
+        t = f.locals[pid]['t']
+        want = [T]
+        if f.n in ('compare_exchange_weak', 'compare_exchange_strong', 'CompareExchangeHelper') and k == 0:
+            want = [T + ' &', T + '&']
+        elif ptr and f.n in ('fetch_add', 'fetch_sub', 'operator+=', 'operator-='):
+            want = ['long']
+        elif f.n in ('operator++', 'operator--'):
+            want = ['int']
+        if t not in want:
+            bad.append((f.locals[pid]['n'], t, want[0]))
+    return bad
+
+
 def check_fiber_method(ctx, fb, f, rule):
     name = opname(f)
     key = '%s::%s%s' % (f.clsq, name, ' volatile' if 'volatile' in f.flags else '')
+    if 'dtor' not in f.flags and f.cta and not (f.clsq.endswith('AtomicFlag')):
+        bad = param_types_ok(f, f.cta[0])
+        if bad:
+            ctx.instance(rule, key, None)
+            ctx.report(rule, key, f.where, 'parameter %s of %s has type %s; the operation on atomic<%s> takes %s: the '
+                       'operand is converted (truncated / rounded) on the way in' % (bad[0][0], f.n, bad[0][1],
+                                                                                      f.cta[0], bad[0][2]),
+                       'instantiation: ' + f.full)
+            return
     try:
         if 'ctor' in f.flags:
             # AtomicWait(T desired): _value(desired)
@@ -268,6 +296,13 @@ def check_wrapper_method(ctx, fb, f, rule, impl_prefixes):
     key = '%s::%s%s' % (f.clsq, name, ' volatile' if 'volatile' in f.flags else '')
     if 'ctor' in f.flags or 'dtor' in f.flags:
         return
+    if len(f.cta) >= 2 and not f.clsq.endswith('AtomicFlag'):
+        bad = param_types_ok(f, f.cta[1])
+        if bad:
+            ctx.instance(rule, key, None)
+            ctx.report(rule, key, f.where, 'parameter %s of wrapper %s has type %s instead of %s' % (
+                bad[0][0], f.n, bad[0][1], bad[0][2]), 'instantiation: ' + f.full)
+            return
     try:
         s = WrapSum(fb, f, impl_prefixes)
         paths = s.run(f)
